@@ -33,12 +33,20 @@ Proof.
   rewrite Z.geb_leb. destruct (Nat.leb_spec e (S n)); [apply Z.leb_le | apply Z.leb_gt]; lia.
 Qed.
 
-(* the model's slice update is exactly gate-then-count-then-check *)
-Lemma bridge_slice_update start stop step s p x m : (1 <= step)%nat ->
-  update (KSlice start stop step) s p x m =
-  Some ((if gen_slice_pass (Z.of_nat (st_n s)) (Z.of_nat start) (Z.of_nat step) then [Nodes.AEmit x m] else [])
-        ++ [ASet (set_n s (S (st_n s)) (gen_slice_done (Z.of_nat (S (st_n s))) (option_map Z.of_nat stop)))]).
+Lemma bridge_slice_finished (n : nat) (stop : option nat) :
+  gen_slice_finished (Z.of_nat n) (option_map Z.of_nat stop) =
+  match stop with Some e => (e <=? n)%nat | None => false end.
 Proof.
-  intros Hs. cbn [update]. rewrite bridge_slice_pass by exact Hs. rewrite bridge_slice_done. reflexivity.
+  destruct stop as [e|]; cbn [gen_slice_finished option_map]; [|reflexivity].
+  rewrite Z.geb_leb. destruct (Nat.leb_spec e n); [apply Z.leb_le | apply Z.leb_gt]; lia.
 Qed.
 
+(* the model's slice update is exactly: nothing once finished; otherwise gate, count, check, then pass on *)
+Lemma bridge_slice_update start stop step s p x m : (1 <= step)%nat ->
+  update (KSlice start stop step) s p x m =
+  if gen_slice_finished (Z.of_nat (st_n s)) (option_map Z.of_nat stop) then Some [ASet s] else
+  Some (ASet (set_n s (S (st_n s)) (gen_slice_done (Z.of_nat (S (st_n s))) (option_map Z.of_nat stop)))
+        :: (if gen_slice_pass (Z.of_nat (st_n s)) (Z.of_nat start) (Z.of_nat step) then [Nodes.AEmit x m] else [])).
+Proof.
+  intros Hs. cbn [update]. rewrite bridge_slice_finished, bridge_slice_pass by exact Hs. rewrite bridge_slice_done. reflexivity.
+Qed.
